@@ -202,6 +202,12 @@ def main(tier):
                                  "; abstract validation infos = " + (g.tags("SIDCASES") or ["?"])[0]
         vlib.log("[c19] GenC19: %d models in %.1fs" % (len(models), g.wall))
         run.extra["samples_reproduced"] = [s["name"] for s in samples if s["pac"]]
+        # ---- the decision procedure against MIT Kerberos' PAC verification on the same images (validates PACVerify / PACFormat, not gokrb5)
+        import mitcross
+        mp = mitcross.mit_pac_cross(models, vlib.read_ndjson(os.path.join(wd, "images.ndjson")))
+        run.extra["pacverify_vs_mit"] = {k: v for k, v in mp.items() if k != "first"}
+        if mp.get("disagreements"):
+            raise vlib.Inconclusive("PACVerify and MIT's krb5_pac_verify disagree on %d images: %s" % (mp["disagreements"], mp["first"]))
         # the real code
         trace = os.path.join(wd, "trace.ndjson")
         h = vlib.run_harness(["c19", "-images", os.path.join(wd, "images.ndjson"), "-sids", os.path.join(wd, "sids.ndjson"), "-out", trace,
